@@ -20,6 +20,8 @@ pub struct Form {
     pub part_shapes: Vec<(usize, u8)>,
     /// the file part names its Content-Type before its Content-Disposition
     pub file_type_first: bool,
+    /// (index into `fields`, bytes): that field's value on the wire is these bytes (which need not be UTF-8) instead of its text
+    pub raw_values: Vec<(usize, Vec<u8>)>,
 }
 
 impl Form {
@@ -33,7 +35,14 @@ impl Form {
                 Some(4) => format!("Content-Disposition:form-data;name=\"{n}\"\r\n"),
                 _ => format!("Content-Disposition: form-data; name=\"{n}\"\r\n"),
             };
-            out.extend_from_slice(format!("--{}\r\n{headers}\r\n{v}\r\n", self.boundary).as_bytes());
+            match self.raw_values.iter().find(|(j, _)| *j == i) {
+                Some((_, raw)) => {
+                    out.extend_from_slice(format!("--{}\r\n{headers}\r\n", self.boundary).as_bytes());
+                    out.extend_from_slice(raw);
+                    out.extend_from_slice(b"\r\n");
+                }
+                None => out.extend_from_slice(format!("--{}\r\n{headers}\r\n{v}\r\n", self.boundary).as_bytes()),
+            }
         }
         if self.file_type_first {
             out.extend_from_slice(format!("--{}\r\nContent-Type: {}\r\nContent-Disposition: form-data; name=\"file\"; filename=\"{}\"\r\n\r\n", self.boundary, self.file_type, self.file_name).as_bytes());
@@ -92,5 +101,5 @@ pub fn signed_form(key: &str, policy_json: &str, ak: &str, secret: &str, amz_dat
         ("x-amz-date".to_owned(), amz_date.to_owned()),
         ("x-amz-signature".to_owned(), sig),
     ]);
-    Form { boundary: "----verifBoundary7MA4YWxkTrZu0gW".to_owned(), fields, file_name: "f.bin".to_owned(), file_type: "application/octet-stream".to_owned(), file: file.to_vec(), after: Vec::new(), part_shapes: Vec::new(), file_type_first: false }
+    Form { boundary: "----verifBoundary7MA4YWxkTrZu0gW".to_owned(), fields, file_name: "f.bin".to_owned(), file_type: "application/octet-stream".to_owned(), file: file.to_vec(), after: Vec::new(), part_shapes: Vec::new(), file_type_first: false, raw_values: Vec::new() }
 }
